@@ -141,8 +141,10 @@ def _decide(self: Session, cond) -> bool:
     if z3.is_false(cond):
         return False
     run = self.run
+    if run is None and not getattr(self, "generic_outside", False):
+        raise RuntimeError("symbolic branch outside explore()")
     if run is None:
-        # a lifted predicate reached while the harness is still BUILDING its input (SymPy's constructors may call into the code under
+        # (opt-in: Session.generic_outside) a lifted predicate reached while the harness is still BUILDING its input (SymPy's constructors may call into the code under
         # test, e.g. Abs(quantity)): decide as at a generic point -- every free variable gets a fixed, name-derived, non-zero rational
         import zlib
         from z3 import z3util
@@ -660,6 +662,8 @@ class SymComplex:
 
     def __abs__(self):
         ses = S()
+        if z3.is_rational_value(z3.simplify(self.im)) and z3.simplify(self.im).as_fraction() == 0:
+            return SymFloat(z3.If(self.re >= 0, self.re, -self.re))          # a real number written as complex(): |x|, no square root needed
         y = ses.enc.fresh("cabs")
         ses.enc.side += [y >= 0, y * y == self.re * self.re + self.im * self.im]
         return SymFloat(y)
@@ -773,6 +777,15 @@ def standard_bindings():
         (CQ, "is_any_dimension", factory(lifted_is_any_dimension)), (DM, "is_any_dimension", factory(lifted_is_any_dimension)),
         (CQ, "is_number", factory(lifted_is_number)), (DM, "is_number", factory(lifted_is_number)),
         (QT, "complex", lifted_complex),
+    ]
+    # numeric builtins in the other core modules a harness executes: the unchanged code may not call them, a changed one may
+    # (e.g. a magnitude test through abs(complex(x))); without these a verification scalar would make the call raise TypeError and the
+    # path would be mistaken for a refusal
+    from symplyphysics.core.vectors import vectors as VV
+    from symplyphysics.core import quantity_decorator as QD
+    for modx in (VV, QD):
+        b += [(modx, "complex", lifted_complex_number), (modx, "float", lifted_float)]
+    b += [
         # printing only (error messages, SymPy sort keys): keep Quantity.__str__ off dimension_to_si_unit for symbolic dimensions
         (QT.Quantity, "_sympystr", lambda self, p: str(self.display_name)),
     ]
